@@ -273,9 +273,10 @@ def walk(prs, entry="all", order="fwd", attribute=False):
 #
 # In a full traversal an accessor that (wrongly) creates content can be masked by an earlier accessor that already
 # created the same content (several are known findings). The isolation pass removes the masking: for every proxy
-# class reached, for (up to two) instances located by their access path from the Presentation, and for every
-# read accessor of the class, a FRESH deck is opened, the object is reached by replaying the path, and only that one
-# accessor is called, bracketed by the hash of the object's own element and of the presentation part.
+# object of a distinct structural context (see context_signature) found in ANY corpus or generated deck, located by its
+# access path from the Presentation, and for every read accessor of its class, a FRESH deck is opened, the object is
+# reached by replaying the path, and only that one accessor is called, bracketed by the hash of the object's own
+# element and of the presentation part.
 
 def _accessor_names(obj):
     from pptx.util import lazyproperty
@@ -287,11 +288,33 @@ def _accessor_names(obj):
     return names
 
 
-def discover_paths(prs, per_class=2):
-    """{class name: [path, ...]}: access paths (steps ('a', name) / ('i', k)) of the first instances of every
-    proxy class reachable from the Presentation."""
+def context_signature(obj):
+    """Structural context of a proxy object: class, tag of its element, the tags of the element's children and
+    grandchildren, its attribute names and the small integers the proxy carries (a point index ...). What a getter does
+    depends on this context (a data label of a series WITH series-level c:dLbls is looked up differently from one
+    without), so the isolation pass takes one instance (thorough: two) of every distinct context found anywhere in the
+    corpus and the generated decks, instead of the first instances of every class."""
+    cls = type(obj).__name__
+    el = _el_of(obj)
+    if el is None:
+        return (cls,)
+
+    def loc(e):
+        return etree.QName(e).localname
+
+    kids = [c for c in el if isinstance(c.tag, str)]
+    k1 = tuple(sorted({loc(c) for c in kids}))
+    k2 = tuple(sorted({loc(g) for c in kids for g in c if isinstance(g.tag, str)}))
+    ints = tuple(sorted((n, min(v, 3)) for n, v in getattr(obj, "__dict__", {}).items()
+                        if isinstance(v, int) and not isinstance(v, bool)))
+    return (cls, loc(el), k1, k2, tuple(sorted(el.attrib)), ints)
+
+
+def discover_paths(prs, per_collection=16):
+    """[(context signature, class name, path)] for every proxy object reachable from the Presentation (breadth-first,
+    the first `per_collection` items of every collection; access paths are steps ('a', name) / ('i', k))."""
     import pptx.opc.package as opcpkg
-    out, seen, keep = {}, set(), []
+    out, seen, keep = [], set(), []
     queue = [(prs, ())]
     n = 0
     while queue:
@@ -310,19 +333,17 @@ def discover_paths(prs, per_class=2):
         n += 1
         if n > 6000 or len(path) > 14:
             continue
-        lst = out.setdefault(cls.__name__, [])
-        if len(lst) < per_class:
-            lst.append(path)
+        out.append((context_signature(obj), cls.__name__, path))
         for name in _accessor_names(obj):
             try:
                 val = list(obj) if name == "__iter__" else getattr(obj, name)
             except Exception:  # noqa: BLE001
                 continue
             if name == "__iter__":
-                for k, item in enumerate(val[:3]):
+                for k, item in enumerate(val[:per_collection]):
                     queue.append((item, path + (("i", k),)))
             elif isinstance(val, (list, tuple)):
-                for k, item in enumerate(val[:3]):
+                for k, item in enumerate(val[:per_collection]):
                     if hasattr(item, "__dict__"):
                         queue.append((item, path + (("a", name), ("i", k))))
             elif val is not None and (type(val).__module__ or "").startswith("pptx"):
@@ -335,6 +356,69 @@ def follow(prs, path):
     for kind, v in path:
         obj = getattr(obj, v) if kind == "a" else list(obj)[v]
     return obj
+
+
+QUERY_METHODS = ("__len__", "__getitem__", "__contains__", "index", "get", "get_by_name")
+
+
+def _rels_digest(prs):
+    """Every relationship of the package as a sorted tuple (harness-side read of the in-memory package)."""
+    pkg = prs.part.package
+    out = []
+    for src_name, rels in [("/", pkg._rels)] + [(str(p.partname), p._rels) for p in pkg.iter_parts()]:
+        for rId, rel in rels.items():
+            out.append((src_name, rId, rel.reltype, rel.target_ref, bool(rel.is_external)))
+    return tuple(sorted(set(out)))
+
+
+def _query_calls(prs, obj, name):
+    """The look-up methods of a collection proxy are part of 'reading': call `name` (encoded 'call:<method>:<variant>'
+    plus, for the foreign variant, the access path of another collection of the same class) with members, with a
+    member of a sibling collection and with absent keys. Exceptions (ValueError, KeyError, IndexError) are answers."""
+    import ast
+    _, method, variant = name.split(":", 2)
+    other_path = None
+    if "@" in variant:
+        variant, enc = variant.split("@", 1)
+        other_path = ast.literal_eval(enc)
+    items = list(obj) if hasattr(type(obj), "__iter__") else []
+    foreign = list(follow(prs, other_path)) if other_path is not None else []
+    pool = {"own": items[:1] + items[-1:], "foreign": foreign[:1]}[variant] if variant in ("own", "foreign") else []
+
+    def attempt(fn, *a):
+        try:
+            fn(*a)
+        except Exception:  # noqa: BLE001
+            pass
+
+    if method == "__len__":
+        attempt(len, obj)
+    elif method == "__getitem__":
+        for k in (0, -1, len(items), "no such key"):
+            attempt(obj.__getitem__, k)
+    elif method in ("index", "__contains__"):
+        for it in pool:
+            attempt(getattr(obj, method), it)
+    elif method == "get_by_name":
+        for it in pool:
+            attempt(obj.get_by_name, getattr(it, "name", None))
+        attempt(obj.get_by_name, "no such name \u2603")
+    elif method == "get":
+        keys = [0, 999999, "no such key"]
+        for it in pool:
+            for attr in ("slide_id", "shape_id", "name"):
+                if hasattr(it, attr):
+                    attempt(lambda: keys.append(getattr(it, attr)))
+            pf = None
+            try:
+                pf = it.placeholder_format
+            except Exception:  # noqa: BLE001
+                pass
+            if pf is not None:
+                attempt(lambda: keys.extend([pf.idx, pf.type]))
+        for k in keys:
+            attempt(obj.get, k)
+            attempt(lambda: obj.get(k, None))
 
 
 def isolated_call(init, clsname, path, name):
@@ -350,23 +434,31 @@ def isolated_call(init, clsname, path, name):
     el = _el_of(obj)
     pres_root = prs.part.__dict__.get("_element")
     watch = [r for r in ((el.getroottree().getroot() if el is not None else None), pres_root) if r is not None]
-    if not watch:
+    if not watch and not name.startswith("call:"):
         return "no-element", []
     pre = [(_pruned_tags(r), _h(r)) for r in watch]
+    rels_before = _rels_digest(prs)
     try:
         if name == "__iter__":
             list(obj)
+        elif name.startswith("call:"):
+            _query_calls(prs, obj, name)
         else:
             getattr(obj, name)
     except Exception:  # noqa: BLE001
         return "raised", []
     found = []
+    rels_after = _rels_digest(prs)
+    if rels_after != rels_before:
+        acc = "%s.%s" % (cls.__name__, name.split("@")[0]) if name.startswith("call:") else "%s.%s" % (_defining_class(cls, name), name)
+        found.append((acc, "relationships", ",".join("%s %s->%s" % (x[0], x[1], x[3]) for x in sorted(set(rels_after) - set(rels_before)))[:300],
+                      ",".join("%s %s->%s" % (x[0], x[1], x[3]) for x in sorted(set(rels_before) - set(rels_after)))[:300]))
     for r, ((ptags, phash), hb) in zip(watch, pre):
         if _h(r) == hb:
             continue
         qtags, qhash = _pruned_tags(r)
         if qhash != phash:
-            found.append(("%s.%s" % (_defining_class(cls, name), name), etree.QName(r).localname,
+            found.append((("%s.%s" % (cls.__name__, name.split("@")[0])) if name.startswith("call:") else "%s.%s" % (_defining_class(cls, name), name), etree.QName(r).localname,
                           ",".join(sorted((qtags - ptags).keys())), ",".join(sorted((ptags - qtags).keys()))))
     return "called", found
 
@@ -385,21 +477,42 @@ def _iso_chunk(part, chunk):
                 {"kind": "isolated", "init": init, "cls": clsname, "path": [list(p) for p in path], "name": name, "signature": sig})
 
 
-def isolation_items(inits):
-    items = []
+def isolation_items(inits, per_context=1):
+    """(deck, class, path, accessor) for `per_context` instances of every distinct structural context, decks in order."""
+    items, taken = [], {}
     for init in inits:
         prs = F.open_prs(initial_blob(init))
-        paths = discover_paths(prs)
-        for clsname in sorted(paths):
-            for path in paths[clsname]:
-                try:
-                    obj = follow(F.open_prs(initial_blob(init)), path) if False else follow(prs, path)
-                    names = _accessor_names(obj)
-                except Exception:  # noqa: BLE001
+        found = discover_paths(prs)
+        by_cls = {}
+        for sig, clsname, path in found:
+            by_cls.setdefault(clsname, []).append(path)
+        for sig, clsname, path in found:
+            # a collection that has a sibling collection of the same class in its deck (two masters' layouts, two
+            # slides' shapes) is a context of its own: only there can a look-up be given a foreign member
+            sig = sig + (len(by_cls.get(clsname, ())) > 1,)
+            if taken.get(sig, 0) >= per_context:
+                continue
+            try:
+                obj = follow(prs, path)
+                names = _accessor_names(obj)
+            except Exception:  # noqa: BLE001
+                continue
+            taken[sig] = taken.get(sig, 0) + 1
+            for name in names:
+                items.append((init, clsname, path, name))
+            # look-up methods of collection proxies, with own members, a sibling collection's member, absent keys
+            cls = type(obj)
+            for meth in QUERY_METHODS:
+                if not callable(getattr(cls, meth, None)):
                     continue
-                for name in names:
-                    items.append((init, clsname, path, name))
-    return items
+                if meth in ("__len__", "__getitem__"):
+                    items.append((init, clsname, path, "call:%s:plain" % meth))
+                    continue
+                items.append((init, clsname, path, "call:%s:own" % meth))
+                others = [p for p in by_cls.get(clsname, ()) if p != path]
+                if others:
+                    items.append((init, clsname, path, "call:%s:foreign@%r" % (meth, others[0])))
+    return items, len(taken)
 
 
 # ---- canonical package with the statement's tolerance ---------------------------------------------------
@@ -695,12 +808,9 @@ def run(ctx):
         explorer.explore(ctx, System(small), 2, name="selected-decks")
     # isolation pass (no masking between accessors)
     from mc.core.parallel import fanout
-    iso_decks = small if not ctx.thorough else small + ["corpus:features/steps/test_files/cht-datalabels.pptx",
-                                                          "corpus:features/steps/test_files/shp-groupshape.pptx",
-                                                          "corpus:features/steps/test_files/ph-inherit-props.pptx",
-                                                          "corpus:features/steps/test_files/dml-fill.pptx"]
-    items = isolation_items(iso_decks)
-    ctx.extra["isolation_pass"] = {"decks": iso_decks, "accessor_calls": len(items)}
+    iso_decks = GEN_INITS + ["out_of_order"] + decks
+    items, n_ctx = isolation_items(iso_decks, per_context=2 if ctx.thorough else 1)
+    ctx.extra["isolation_pass"] = {"decks": len(iso_decks), "structural_contexts": n_ctx, "accessor_calls": len(items)}
     fanout(ctx, _iso_chunk, ctx.rotate(items))
     if len(items) < 1000:
         raise HarnessError("isolation pass found only %d (object, accessor) pairs" % len(items))
